@@ -4,28 +4,13 @@ import os
 
 V = os.path.dirname(os.path.dirname(os.path.abspath(__file__)))
 
-CHECKS = {
- "C19": dict(
-  text="Coq proof, for the stencil tables and row-selection rule regenerated from helpers.py on every run, that every row differentiates every polynomial of degree <= #points-1 exactly (central rows one degree more), that the Hessian stencil is exact on bivariate total degree 3/5, and that no evaluation point leaves the bounds when the interval is at least as wide as the stencil; the narrow-interval case is refuted by a witness (known finding). The hand-written evaluation-point model is compared exactly (vm_compute) with the implementation on dyadic inputs and the property is also evaluated directly on the implementation for non-dyadic floats and all input shapes.",
-  note="Trusted: Coq kernel+vm_compute; tools/gen_helpers.py (AST translator, fail-closed); the correspondence harness. Axioms: ClassicalDedekindReals.sig_forall_dec, FunctionalExtensionality.functional_extensionality_dep (Stdlib Reals). Modelled not verified: binary64 rounding, numpy broadcasting.",
-  technique="Coq proof over generated stencil tables (field/lra) + exact vm_compute correspondence",
-  design="4/C19"),
- "C10": dict(
-  text="The whole Thermodynamics class (16 methods incl. setExtrapolate as a state transformer) is regenerated from thermodynamics.py by the pyrx AST translator on every run. Coq proves for EVERY free-energy table (abstract functions f, f', f'' with w>0, de/dT>0 at the range ends) and EVERY prior object state: e=Tp'-p, w=Tp', de=Tp'' at all T; cs2 = p'/e' at every T>0 including both extrapolated regions; p', p'' are the derivatives of p (derivable_pt_lim) at EVERY T>0: below, inside and above the table and at the two junction temperatures themselves; p, p', p'', cs2 are continuous across both ends of both phases (continuity_pt, given continuity of the table there); p = -Veff inside. Model-vs-code agreement is certified per sample by the Interval tactic; the property is also evaluated directly on the implementation with stub and traced free energies.",
-  note="Trusted: Coq kernel; Interval tactic; tools/pyrx.py + gen_thermo.py translator; harness tolerances (1e-9 rel.). Axioms: Classical_Prop.classic, ClassicalDedekindReals.sig_forall_dec/sig_not_dec, functional_extensionality_dep (Stdlib Reals). Hypotheses (external): CubicSpline and its derivative(k) are a C2 function and its derivatives.",
-  technique="Coq proof over pyrx-generated model (Reals, derivable_pt_lim/continuity_pt) + certified interval evaluation",
-  design="4/C10"),
- "C14": dict(
-  text="On every run the facts of collision loading are re-extracted from the Python AST (order and exception class of every check of CollisionArray.newFromDirectory, file/dataset/store index order, basis labels of the equal-size and interpolation branches, statements and handlers of BoltzmannSolver.loadCollisions), as are the array pipeline of interpolateCollisionArray (evaluate -> truncate -> moveaxis -> reshape, meshgrid layout of the points) and the matrix pipeline of Polynomial.changeBasis with the inverseTranspose flag CollisionArray.changeBasis passes. Coq proves for every number of particles, every size, every directory and every operation sequence: a failed load leaves the installed array in place and is reported as the load's own error; over all sequences of particle-list updates and loads the solver state is 'install exactly on success'; a successful load holds for every ordered pair exactly its file's numbers on the requested grid and basis; missing file / oversized target / size or basis mismatch are CollisionLoadError and are the only reasons a load fails; entry (a,alpha,beta,b,j,k) of the interpolated data is the evaluation at target point (alpha,beta) of pair (a,b) (all P, n), hence blocks are pairwise independent and the interpolated operator acts on every low-order distribution as the source operator evaluated at the new points; the inverse-transpose basis change leaves the operator action on every distribution unchanged and round-trips (mathcomp, any field, any n). The state machine and the array pipeline are compared exactly (vm_compute) with the running code on op sequences over synthetic HDF5 directories and on tagged arrays; the property is evaluated directly on the implementation against an independent numpy reference for P in 1..3, both stored x both requested bases, smaller odd targets, pairs loaded alone, and fault sequences.",
-  note="Trusted: Coq kernel+vm_compute; mathcomp matrix library; tools/gen_collision.py (fail-closed AST fact extractor / array-pipeline translator); the harness (h5py fixtures, numpy reference: Chebyshev evaluation + Lagrange interpolation, tolerance 1e-8 rel.). Axioms: ClassicalDedekindReals.sig_forall_dec, functional_extensionality_dep (Stdlib Reals, only in the two theorems over R). Hypotheses (external, validated at run time): np.linalg.inv is a right inverse on invertible matrices; the restricted Chebyshev node matrices are invertible (C16); Polynomial.evaluate returns (points, remaining axes) (statement patterns checked in the AST); file numbers are abstract data ids in the state machine.",
-  technique="Coq proof over a cfg-parametrised state machine (facts generated from the AST), C-order index arithmetic over nat for all sizes, mathcomp matrix algebra; exact vm_compute op-sequence and tagged-array correspondence; direct validation against an independent reference",
-  design="4/C14"),
- "C09": dict(
-  text="EOM.wallProfile (per field), EOM._updateGrid (1 and 2 fields) and the def-use slice of EOM._intermediatePressureResults that is handed to Polynomial.integrate are regenerated from equationOfMotion.py on every run; in the slice every use of the wall parameters and of the grid carries the version (re-definition) that reaches it. Coq (Coquelicot) proves for ALL vevs, widths, offsets: the returned gradient is the derivative of the returned profile; the profile tends to the two phases; for every C1 potential the integral of dV/dphi.dphi/dz along the wall is the potential difference (one field; two fields with independent widths/offsets and any differentiable V), its whole-line limit is V(low)-V(high), the same for any T(z) when the field part is T-independent, and in the compactified coordinate with weight -dz/dchi; the GENERATED integrand equals that total derivative for the wall parameters that are RETURNED and on the grid the caller sees, so it integrates exactly to the end-point difference, which tends to V(low)-V(high); the re-mapped grid of _updateGrid always satisfies the Grid3Scales preconditions and contains every field's wall, with equal tails when includeOffEq is off. Certified interval evaluation ties the generated wallProfile/_updateGrid to the running code; the real EOM pressure is compared with V(low)-V(high) on 1- and 2-field quartic potentials over widths within x3, |offset|<=2, M=40..240, both grid settings (unequal tails), imposed and moved walls, and the Jacobian hypothesis is validated on every grid used.",
-  note="Trusted: Coq kernel; Coquelicot; Interval tactic; tools/pyrx.py + tools/gen_eom_profile.py (fail-closed AST translator: per-field scalarisation, versioned def-use slice); harness tolerances. Axioms: Classical_Prop.classic, ClassicalDedekindReals.sig_forall_dec/sig_not_dec, functional_extensionality_dep (Stdlib Reals/Coquelicot). Hypotheses (external, validated at run time): dzdchi is the derivative of the grid map chi->z (proved by C17) and the map reaches +-infinity at chi=+-1; derivField is the gradient of the potential (FD exact on quartics, C19/C08); no out-of-equilibrium term; Gauss-Lobatto quadrature error (calibrated tolerance in R = M*min(width)/L and M, recorded in the evidence; at M<60 with unequal long tails the quadrature itself is accurate to percent level only). Not covered: general n>2 fields in Coq (generic V proved for 1 and 2 fields), convergence rate of the quadrature, mutation of self.grid by callees not visible as self.grid.<m>()/self._updateGrid() calls.",
-  technique="Coq/Coquelicot proof over pyrx-generated model + versioned def-use slice (is_derive, is_RInt, filterlim) + certified interval evaluation + direct validation on the real EOM",
-  design="4/C09"),
-}
+CHECKS = {}
+_ED = os.path.join(V, "tools", "manifest_entries")
+for _fn in sorted(os.listdir(_ED)):
+    if _fn.endswith(".py") and _fn[0] == "C":
+        _ns = {}
+        exec(open(os.path.join(_ED, _fn)).read(), _ns)
+        CHECKS[_fn[:-3]] = _ns["ENTRY"]
 
 NOT_APPLICABLE = {}
 
